@@ -95,3 +95,61 @@ def keepsFullCurrent : Bool := Generated.whereFilterKeepsFullPredicate
 end sem
 
 end Nervus.WherePush
+
+/-! ## where a pushed-down filter may be placed: free variables
+
+  `apply_filters_for_alias` emits the hop-level filter `alias.prop = value` right after the scan /
+  hop that binds `alias`.  That is only sound where every FREE variable of `value` is bound.  The
+  planner computes "the variables of an expression" with `extract_variables_from_expr`
+  (query_api/ast_walk.rs), a walker that has arms for SOME variants of `ast::Expression` only
+  (regenerated: `Generated.walkerVariants`); the real free variables are the full recursion. -/
+
+namespace Nervus.WherePush
+
+/-- the non-leaf variants of `ast::Expression` (FunctionCall is split: quantifiers and reduce bind) -/
+inductive EKind where
+  | unary | binary | call | list | map | quant | reduce | case | listComp | patComp | exists
+  deriving DecidableEq, Repr
+
+def EKind.all : List EKind :=
+  [.unary, .binary, .call, .list, .map, .quant, .reduce, .case, .listComp, .patComp, .exists]
+
+/-- the name of the variant in the source (`Generated.walkerVariants`) -/
+def EKind.variant : EKind → String
+  | .unary => "Unary" | .binary => "Binary" | .call => "FunctionCall" | .list => "List" | .map => "Map"
+  | .quant => "Quantifier" | .reduce => "Reduce" | .case => "Case" | .listComp => "ListComprehension"
+  | .patComp => "PatternComprehension" | .exists => "Exists"
+
+/-- expressions as far as variables go: a leaf reads variables (Literal / Parameter: none;
+    Variable / PropertyAccess: one), a node has children evaluated in the enclosing scope (`outer`)
+    and children evaluated under the variables it binds (`inner`) -/
+inductive VE where
+  | leaf (reads : List String)
+  | pair (a b : VE)
+  | node (k : EKind) (binds : List String) (outer inner : VE)
+
+/-- the free variables: the full recursion -/
+def VE.free : VE → List String
+  | .leaf reads => reads
+  | .pair a b => a.free ++ b.free
+  | .node _ binds outer inner => outer.free ++ inner.free.filter (fun x => !binds.contains x)
+
+/-- the planner's walker: it only looks inside the variants it has an arm for -/
+def VE.walker (descends : EKind → Bool) : VE → List String
+  | .leaf reads => reads
+  | .pair a b => a.walker descends ++ b.walker descends
+  | .node k binds outer inner =>
+    if descends k then outer.walker descends ++ (inner.walker descends).filter (fun x => !binds.contains x)
+    else []
+
+/-- the walker of the working tree -/
+def walkerDescendsCurrent (k : EKind) : Bool := Generated.walkerVariants.contains k.variant
+
+/-- the planner places the filter where the walker's variables are bound -/
+def placementAllowed (descends : EKind → Bool) (bound : List String) (value : VE) : Prop :=
+  ∀ x ∈ value.walker descends, x ∈ bound
+
+/-- what soundness needs: every free variable is bound -/
+def ScopeSound (bound : List String) (value : VE) : Prop := ∀ x ∈ value.free, x ∈ bound
+
+end Nervus.WherePush
